@@ -851,3 +851,29 @@ func (p *Prog) codeRegexPattern(varName string) (string, error) {
 	}
 	return "", fmt.Errorf("regexp variable %s not found in the repository", varName)
 }
+
+func numSubexp(pattern string) (int, error) {
+	re, err := syntax.Parse(pattern, syntax.Perl)
+	if err != nil {
+		return 0, err
+	}
+	return re.MaxCap(), nil
+}
+
+// groupChar looks up the directive "groupchar VAR IDX "LIT" LANG [serves ...]".
+func (p *Prog) groupChar(v string, idx int, lit string) (string, bool) {
+	for _, r := range p.spec.Raw["groupchar"] {
+		f := strings.Fields(r.Text)
+		if len(f) < 4 {
+			continue
+		}
+		l, err := strconv.Unquote(f[2])
+		if err != nil {
+			continue
+		}
+		if f[0] == v && f[1] == strconv.Itoa(idx) && l == lit {
+			return f[3], true
+		}
+	}
+	return "", false
+}
